@@ -174,9 +174,10 @@ def relational(F, mon):
 
     def specs(t, i, nm):
         col = t.cols()[i]
-        out = {"stored name": nm, "column object": col, "equal vector": Vector(list(col), name=nm), "lower": nm.lower(), "upper": nm.upper(),
+        out = {"stored name": nm, "rebuilt string": "".join(list(nm)), "column object": col, "equal vector": Vector(list(col), name=nm), "lower": nm.lower(), "upper": nm.upper(),
                "sanitised": nm.lower().replace(" ", "_"), "positional": "col%d_" % (i + 1)}
-        return {k: v for k, v in out.items() if isinstance(v, Vector) or _resolves(t, v, col)}
+        # (the stored name itself - however the string object was built - is never filtered out: it MUST resolve)
+        return {k: v for k, v in out.items() if isinstance(v, Vector) or k in ("stored name", "rebuilt string") or _resolves(t, v, col)}
 
     def _resolves(t, s, col):
         try:
@@ -199,7 +200,7 @@ def relational(F, mon):
         if st0 != "ok":
             F.add("form_" + cname.split()[0].replace("inner_join", "join"), {"call": cname}, "canonical call raised " + type(e0).__name__ + ": " + str(e0)[:80], "a table")
             continue
-        for f1, f2, f3 in itertools.product(("stored name", "column object", "equal vector", "lower", "upper", "sanitised", "positional"),
+        for f1, f2, f3 in itertools.product(("stored name", "rebuilt string", "column object", "equal vector", "lower", "upper", "sanitised", "positional"),
                                             ("stored name", "column object", "equal vector"), ("stored name", "column object", "equal vector", "upper")):
             t = tab()
             s1, s2, s3 = specs(t, 0, "Key One"), specs(t, 1, "k2"), specs(t, 2, "val")
@@ -212,6 +213,9 @@ def relational(F, mon):
             if not views_equal(table_view(t), before):
                 F.add("operands_unchanged", case, table_view(t), before)
             if st != "ok":
+                # other spellings may be rejected; a string EQUAL to the stored name (however it was built) and the column itself may not
+                if {f1, f2, f3} <= {"stored name", "rebuilt string", "column object"}:
+                    F.add("form_" + cname.split()[0].replace("inner_join", "join"), case, "raised " + type(e).__name__ + ": " + str(e)[:80], view(r0))
                 continue
             if not isinstance(r, Table) or not views_equal(table_view(r), table_view(r0)):
                 F.add("form_" + cname.split()[0].replace("inner_join", "join"), case, view(r), view(r0))
@@ -240,6 +244,25 @@ def relational(F, mon):
                     continue
                 if not views_equal(view(r), view(r0)):
                     F.add("form_" + cname.split()[0].replace("t[name]", "index").replace("t[(names)]", "index"), case, view(r), view(r0))
+    # unnamed and repeated columns are addressed by their generated accessors (col<i>_, name__<i>, 0-based positions): as a
+    # string spec each of them means the column at that position
+    def t3():
+        return Table([Vector([3, 1, 2, 1, 3]), Vector(["p", "p", "q", "r", "r"], name="k"), Vector([1, 1, 2, 2, 3], name="k"), Vector([5, 4, 3, 2, 1]), Vector([1, 2, 3, 4, 5], name="val")])
+    gen_acc = {"col0_": 0, "k": 1, "k__2": 2, "col3_": 3, "COL3_": 3, "K__2": 2}
+    look3 = {"sort_by": lambda t, k: t.sort_by(k, reverse=True), "aggregate": lambda t, k: t.aggregate(over=k, sum_over="val"),
+             "window": lambda t, k: t.window(over=k, count_over="val"), "aggregate value": lambda t, k: t.aggregate(over="val", max_over=k),
+             "t[name]": lambda t, k: t[k] if isinstance(k, str) else k, "t[(names)]": lambda t, k: t[(k, "val")] if isinstance(k, str) else Table([k, t["val"]])}
+    for cname, call in look3.items():
+        for acc, pos in gen_acc.items():
+            t = t3()
+            st0, r0, e0 = attempt(lambda: call(t, t.cols()[pos]))
+            st, r, e = attempt(lambda: call(t, "".join(list(acc))))
+            ex += 1
+            case = {"call": cname, "column given as": acc, "means column": pos}
+            if st != "ok":
+                continue                   # rejecting the spelling is allowed
+            if st0 != "ok" or not views_equal(view(r), view(r0)):
+                F.add("form_" + cname.split()[0].replace("t[name]", "index").replace("t[(names)]", "index"), case, view(r), view(r0) if st0 == "ok" else "the outcome for the column object")
     return ex
 
 
@@ -308,7 +331,8 @@ def grid2d(F, mon):
                 "all": slice(None), "empty": slice(nr, 0), "tail": slice(-2, None), "beyond": slice(1, nr + 5)}
         colks = {"int": 0, "neg": -1, "name": names[-1], "slice": slice(0, 2), "names": tuple(names[::2]), "all": slice(None), "rev": slice(None, None, -1),
                  "step": slice(0, nc, 2), "empty": slice(nc, 0)}
-        wcolks = dict(colks, lnames=list(names[::2]), ints=tuple(range(0, nc, 2)), lints=list(range(0, nc, 2)))
+        wcolks = dict(colks, lnames=list(names[::2]), ints=tuple(range(0, nc, 2)), lints=list(range(0, nc, 2)),
+                      rnames=tuple(reversed(names)), rlnames=list(reversed(names))[:2], rints=list(range(nc - 1, -1, -1)), tail=slice(1, None))
         # row keys accepted by item ASSIGNMENT only: masks and index lists in every container
         msk = [i % 2 == 0 for i in range(nr)]
         wrows = dict(rows, lmask=list(msk), vmask=Vector(list(msk)), ilist=[0, nr - 1], ivec=Vector([0, nr - 1]), ituple=(0, nr - 1),
@@ -369,7 +393,9 @@ def grid2d(F, mon):
                     if not views_equal(table_view(t), before):
                         F.add("operands_unchanged", case, "t[rows, cols] changed the table", "unchanged")
                 # ---- write: scalar, and one value per addressed cell
-                for vname in ("scalar", "shaped"):
+                for vname in ("scalar", "shaped", "table"):
+                    if vname == "table" and (rs or cs or not rp or not cp):
+                        continue
                     t = Table({k: list(v) for k, v in cols0.items()})
                     before = table_view(t)
                     if vname == "scalar":
@@ -392,6 +418,8 @@ def grid2d(F, mon):
                             value = list(vals[0])                    # one column: a flat list, one value per row
                         else:
                             value = [list(v) for v in vals]          # a region: list of columns
+                        if vname == "table":
+                            value = Table([Vector(list(v), name="src%d" % k) for k, v in enumerate(vals)])   # ... or a table of that shape
                         if len(set(cp)) != len(cp) or len(set(rp)) != len(rp):
                             continue
                     st, _, e = attempt(lambda: t.__setitem__((r, c), value))
@@ -551,6 +579,31 @@ def held_views(F, mon):
             F.add("derived_independent", case, {"writing the derived object changed the source": table_view(t)}, before)
     # homogeneous tables: a row has a dtype of its own (<int>); a promoting / None write must be visible in the dtype of every
     # row (and slice of a row) taken afterwards, whatever was read before
+    from datetime import datetime as _dtm
+    for label, build, writes_d in (("date column with a gap", lambda: Table({"d": [date(2020, 1, 1), None, date(2020, 1, 3)], "x": [4, 5, 6]}),
+                                    (("t[0, 'd'] = datetime", lambda t: t.__setitem__((0, "d"), _dtm(2021, 1, 1, 5))), ("t[2] = [datetime, 9]", lambda t: t.__setitem__(2, [_dtm(2021, 1, 1, 5), 9])),
+                                     ("t.d[0] = datetime", lambda t: t.d.__setitem__(0, _dtm(2021, 1, 1, 5))))),
+                                   ("int column with a gap and a zero", lambda: Table({"d": [0, None, 3], "x": [4, 5, 6]}),
+                                    (("t[2, 'd'] = 2.5", lambda t: t.__setitem__((2, "d"), 2.5)), ("t[2, 'd'] = 1j", lambda t: t.__setitem__((2, "d"), 1j)),
+                                     ("t.d[2] = 1j", lambda t: t.d.__setitem__(2, 1j))))):
+        for wname, write in writes_d:
+            t = build()
+            old_cells = [list(c) for c in t.cols()]
+            st, _, e = attempt(lambda: write(t))
+            ex += 1
+            case = {"table": label, "written": wname, "outcome": "ok" if st == "ok" else type(e).__name__}
+            cols = [list(c) for c in t.cols()]
+            if len({len(c) for c in cols}) != 1 or len(t) != 3 or t.shape != (3, 2):
+                F.add("rectangular", case, {"column lengths": [len(c) for c in cols], "len": len(t), "shape": t.shape}, "3 rows in every column")
+            elif st == "ok":
+                # the cells that were not addressed are what they were, converted at most (None stays None, a zero stays a zero)
+                for ci, (new, old) in enumerate(zip(cols, old_cells)):
+                    for ri, (a_, b_) in enumerate(zip(new, old)):
+                        if (a_ is None) != (b_ is None) and not (wname.startswith("t[%d" % ri) or ("[%d]" % ri in wname and ci == 0)):
+                            F.add("derived_current", case, {"column": ci, "row": ri, "now": repr(a_)}, repr(b_))
+            for r in range(len(t)):
+                mon.see(t[r], "row after " + wname)
+            mon.see(t, "table after " + wname)
     for wname, write, newcol in (("t.a[1] = 2.5", lambda t: t.a.__setitem__(1, 2.5), [1.0, 2.5, 3.0]), ("t[1, 'a'] = None", lambda t: t.__setitem__((1, "a"), None), [1, None, 3]),
                                  ("t[1] = [2.5, None]", lambda t: t.__setitem__(1, [2.5, None]), None), ("t.a = floats", lambda t: setattr(t, "a", [1.5, 2.5, 3.5]), [1.5, 2.5, 3.5])):
         for pre in ("nothing", "t[1]", "for r in t", "t[0][0:2]"):
